@@ -16,6 +16,7 @@ class Bounded:
         self.samples = []
         self.violations = []
         self.t0 = time.time()
+        self.c0 = time.thread_time()  # time budgets are in CPU seconds of this thread: the cases explored do not depend on machine load
         a = sys.argv
         self.tier = a[a.index("--tier") + 1] if "--tier" in a else "quick"
         self.seed = int(a[a.index("--seed") + 1]) if "--seed" in a else 0
@@ -41,6 +42,10 @@ class Bounded:
         if not cond:
             self.violation(vid, what, inp)
         return cond
+
+    def spent(self):
+        """CPU seconds this thread has used since the script started (what the time budgets are compared with)"""
+        return time.thread_time() - self.c0
 
     def finish(self, exhaustive=False):
         out = {
